@@ -37,6 +37,7 @@ MAXPAR = 6
 POINTS = {
     'before_open': 'PtBeforeOpen', 'line': 'PtLine',
     'before_put': 'PtBeforePut', 'after_put': 'PtAfterPut',
+    'queue_put': 'PtBeforePut',
     'before_alloc': 'PtBeforeAlloc', 'alloc_inside_lock': 'PtAllocInside',
     'alloc_before_write': 'PtAllocInside',
     'alloc_after_write': 'PtAllocInside', 'after_alloc': 'PtAfterAlloc',
@@ -45,9 +46,14 @@ POINTS = {
     'after_last': 'PtAfterLast'}
 SYNC_POINTS = ('before_sync', 'sync_inside_lock', 'sync_add_inside_lock',
                'after_sync')
-KMAX = {'line': 65, 'before_put': 7, 'after_put': 7,
+KMAX = {'line': 65, 'before_put': 7, 'after_put': 7, 'queue_put': 5,
         'sync_add_inside_lock': 20, 'sync_inside_lock': 20,
         'alloc_inside_lock': 2}
+# exceptions a failing hand-over to the manager's queue raises, injected
+# below the library (BaseProxy._callmethod for put / put_nowait)
+QUEUE_KINDS = {'raise_conn': 'ConnectionResetError',
+               'raise_pipe': 'BrokenPipeError', 'raise_eof': 'EOFError',
+               'raise_os': 'OSError'}
 CLASSES = {'FileSearchException': 'E_FSE', 'UnicodeDecodeError': 'E_UDE',
            'BrokenProcessPool': 'E_BPP'}
 OK_CLASSES = ('FileSearchException', 'UnicodeDecodeError')
@@ -98,6 +104,12 @@ def plans(chk):
                     out.append(mkplan(rng, pt, kind, n, w,
                                       file=files[idx % 3]))
                     idx += 1
+    # the hand-over of the k-th and every later batch fails inside the
+    # queue proxy (connection to the manager reset / broken / closed)
+    for kind in QUEUE_KINDS:
+        combos = [(3, 2)] if chk.quick else [(2, 1), (3, 2), (4, 3), (5, 4)]
+        for (n, w) in combos:
+            out.append(mkplan(rng, 'queue_put', kind, n, w))
     # undecodable input and injected UnicodeDecodeError
     out.append(mkplan(rng, 'line', 'raise_ude', 3, 2))
     out.append(mkplan(rng, 'sync_inside_lock', 'raise_ude', 3, 2))
@@ -301,6 +313,8 @@ def coq_case(plan, o):
         k = 'KExit'
     elif kind in ('raise_ude', 'bad_utf8'):
         k = '(KRaise E_UDE)'
+    elif kind in QUEUE_KINDS:
+        k = f'(KRaise "{QUEUE_KINDS[kind]}"%string)'
     else:
         k = '(KRaise "RuntimeError"%string)'
     if o['run1'] == 'returned':
